@@ -58,3 +58,5 @@ reg("C10", "tables", fn="check_identities")
 reg("C11", "tables", fn="check_wellformed")
 reg("C11", "tables", fn="check_identities")
 reg("C11", "tables", fn="check_wiring")
+reg("C02", "opsib")
+reg("C10", "opsib")
